@@ -20,4 +20,11 @@ PROPS = {
                         'where the first-order NLI estimate stays below the channel power)'],
         'extra': [],
     },
+    'C07': {
+        'level': 'proof',
+        'claim': 'under construction',
+        'level_note': 'under construction',
+        'trusted': NUMPY_TRUST,
+        'not_applicable': 'check under construction in this commit',
+    },
 }
